@@ -36,7 +36,8 @@ class Sandbox:
         self.home = os.path.join(deep, "home")      # $HOME while the Filer runs: an expansion of '~' lands here, visibly
         self.cwd = os.path.join(deep, "cwd")        # the current directory while the Filer runs: a relative head ('', '.', 'rel') lands here
         self.deep = deep
-        for d in (self.head, self.temphead, self.alt, self.home, self.cwd):
+        self.systmp = os.path.join(deep, "systmp")   # what tempfile.gettempdir() answers while the Filer runs: a silent fallback to it is visible
+        for d in (self.head, self.temphead, self.alt, self.home, self.cwd, self.systmp):
             os.makedirs(d)
         p = self.root
         for s in [None] + CHAIN:          # a sentinel file at every level: deleting one is always wrong
